@@ -25,6 +25,7 @@ def run(ck, models, tier):
         if tm.arch != "arm":
             continue
         recs = patches.analyse(tm)
+        patches.missing_entry_writes(ck, "R16.1", tm, "arm")
         for key, m in tm.machines.items():
             for f in m.entered:
                 ck.analysed_fn(tm.target, f)
